@@ -541,6 +541,10 @@ func (bkt *Bucket) incr(ki *KeyInfo, value int) int {
 				ver += tofree.Ver
 				value += v
 			}
+		} else if tofree.Ver < 0 {
+			// incr of a deleted key is a write like any other: its version continues above
+			// the delete marker's instead of restarting at 1
+			ver -= tofree.Ver
 		}
 	}
 
